@@ -24,7 +24,7 @@ def has_quantifier(t):
     k = t.get_id()
     r = _QCACHE.get(k)
     if r is not None:
-        return r
+        return r[1]
     todo = [t]
     seen = set()
     r = False
@@ -38,7 +38,7 @@ def has_quantifier(t):
             r = True
             break
         todo.extend(x.children())
-    _QCACHE[k] = r
+    _QCACHE[k] = (t, r)     # keeping the term alive prevents z3 from re-using its id
     return r
 
 
@@ -95,13 +95,14 @@ class Ctx:
     def entails(self, c):
         s = self._qf()
         k = c.get_id()
-        r = self._ent_cache.get(k)
-        if r is None:
-            s.push()
-            s.add(z3.Not(c))
-            r = s.check() == z3.unsat
-            s.pop()
-            self._ent_cache[k] = r
+        hit = self._ent_cache.get(k)
+        if hit is not None:
+            return hit[1]
+        s.push()
+        s.add(z3.Not(c))
+        r = s.check() == z3.unsat
+        s.pop()
+        self._ent_cache[k] = (c, r)     # the term is kept alive with its verdict (ids of dead terms are re-used by z3)
         return r
 
     def bind(self, t, hint="v"):
@@ -109,13 +110,14 @@ class Ctx:
         k = t.get_id()
         if not hasattr(self, "_binds"):
             self._binds = {}
-        c = self._binds.get(k)
-        if c is None:
+        hit = self._binds.get(k)
+        if hit is None:
             c = z3.Const(fresh_name(hint), t.sort())
-            self._binds[k] = c
-            self._binds[c.get_id()] = c
+            self._binds[k] = (t, c)
+            self._binds[c.get_id()] = (c, c)
             self.pc.append(c == t)
-        return c
+            return c
+        return hit[1]
 
     def prune(self, t, depth=0):
         """resolve If-conditions that the path condition decides (keeps index terms small)"""
@@ -142,7 +144,7 @@ class Ctx:
         t = term(t)
         k = t.get_id()
         if k not in self._fact_ids:
-            self._fact_ids.add(k)
+            self._fact_ids.add(k)       # t stays referenced from self.facts, so its id is not re-used
             self.facts.append(t)
 
     def assume(self, t):
